@@ -618,13 +618,20 @@ func ruleDEFERAPPEND(p *Program, r *Reporter) {
 		return
 	}
 	found := false
-	for _, b := range mon.Blocks {
-		for _, ins := range b.Instrs {
-			if ia, ok := ins.(*ssa.IndexAddr); ok {
-				if ld, ok := ia.X.(*ssa.UnOp); ok {
-					if fa, ok := ld.X.(*ssa.FieldAddr); ok && fieldOfAddr(fa) == fld {
-						// induction variable counting up from 0
-						found = nonNegative(ia.Index, 0)
+	// the loop may live in a private helper of monitor()
+	region := p.PrivateRegion(mon)
+	region[mon] = true
+	for g := range region {
+		for _, b := range g.Blocks {
+			for _, ins := range b.Instrs {
+				if ia, ok := ins.(*ssa.IndexAddr); ok {
+					if ld, ok := ia.X.(*ssa.UnOp); ok {
+						if fa, ok := ld.X.(*ssa.FieldAddr); ok && fieldOfAddr(fa) == fld {
+							// induction variable counting up from 0
+							if nonNegative(ia.Index, 0) {
+								found = true
+							}
+						}
 					}
 				}
 			}
